@@ -729,6 +729,7 @@ _BTree_set(BTree *self, PyObject *keyarg, PyObject *value,
     int childlength;    /* len(self->data[min].child) */
     int status;         /* our return value; and return value from callee */
     int self_was_empty; /* was self empty at entry? */
+    int sepcmp = 1;     /* delete: 0 iff the key equals self->data[min].key */
 
     KEY_TYPE key;
     int copied = 1;
@@ -767,6 +768,16 @@ _BTree_set(BTree *self, PyObject *keyarg, PyObject *value,
 #ifdef PERSISTENT
     PER_READCURRENT(self, goto Error);
 #endif
+
+    if (!value && min)
+    {
+        /* A delete may have to replace the key of slot min (if it is the key
+         * being deleted).  Compare now:  once the child has changed, a
+         * comparison that raises could no longer be handled, and the pending
+         * unlinking of an emptied bucket would be skipped.
+         */
+        TEST_KEY_SET_OR(sepcmp, key, d->key) goto Error;
+    }
 
     if (SameType_Check(self, d->child))
         status = _BTree_set(BTREE(d->child), keyarg, value, unique, noval);
@@ -840,9 +851,7 @@ _BTree_set(BTree *self, PyObject *keyarg, PyObject *value,
 
         This doesn't apply to the 0th node, whos key is unused.
         */
-        int _cmp = 1;
-        TEST_KEY_SET_OR(_cmp, key, d->key) goto Error;
-        if (_cmp == 0) /* Need to replace key with first key from child */
+        if (sepcmp == 0) /* Need to replace key with first key from child */
         {
             Bucket *bucket;
 
